@@ -119,3 +119,58 @@ def expected(line):
 LINES = ['SSH-2.0-OpenSSH_8.9p1 Ubuntu-3ubuntu0.6', 'SSH-2.0-OpenSSH_9.6', 'SSH-1.99-OpenSSH_3.9p1', 'SSH-1.5-1.2.27', 'SSH-2.0-dropbear_2022.83', 'SSH-2.0', 'SSH-2.0-', 'SSH-2.0-libssh_0.10.6',
          'SSH-1.99-SSH-2.0-Cisco-1.25', 'SSH-2.0-OpenSSH_7.4   FreeBSD-20170903   extra  words ', 'SSH-2.0-Open\x01SSH_8.9', 'SSH-2.0-OpenSSH_8.9 caf\xe9', 'SSH-2.0-X SSH-1.5-y', 'SSH-2.0-X comment SSH-1.0 inside',
          'SSH-2. 0-odd', 'HTTP/1.1 400 Bad Request', 'ssh-2.0-lowercase', '', 'SSH-2', 'SSH-10.0-x', 'Welcome to SSH-2.0-OpenSSH', ' SSH-2.0-leading-space', 'SSH-2.0-a\tb tab']
+
+def check_print_helpers(repo, rep, rule):
+    """Utils.is_print_ascii / to_print_ascii by interpretation on boundary strings: printable <=> every character in 32..126, everything else replaced by '?'"""
+    from sa.listinterp import Interp as _I16
+    from sa.abseval import Unknown as _U16
+
+    def _ures(call):
+        f = call.func
+        if isinstance(f, ast.Attribute) and isinstance(f.value, ast.Name) and f.value.id in ('cls', 'Utils', 'self') and repo.has_func('utils', 'Utils.' + f.attr):
+            return repo.func('utils', 'Utils.' + f.attr)
+        if isinstance(f, ast.Name) and repo.has_func('utils', f.id):
+            return repo.func('utils', f.id)           # a module-level helper of utils (a named predicate instead of a lambda)
+        return None
+    ipa = repo.func('utils', 'Utils.is_print_ascii')
+    tpa = repo.func('utils', 'Utils.to_print_ascii')
+    rep.saw(ipa), rep.saw(tpa)
+    uconsts = {}
+    bare_ = {}
+    for st_ in repo.cls('utils', 'Utils').body:
+        tgt_ = st_.targets[0] if isinstance(st_, ast.Assign) and len(st_.targets) == 1 else (st_.target if isinstance(st_, ast.AnnAssign) and st_.value is not None else None)
+        if isinstance(tgt_, ast.Name):
+            try:
+                v_ = _I16().value(st_.value, dict(bare_))
+            except _U16:
+                continue
+            bare_[tgt_.id] = v_        # (class-level names are visible to later class-level expressions and to parameter defaults)
+            for pre_ in ('cls.', 'Utils.', 'self.'):
+                uconsts[pre_ + tgt_.id] = v_
+    samples = ['SSH-2.0-x', '', ' ~', 'a\tb', 'a\x1fb', 'a\x7fb', 'caf\xe9', '\x00', 'tab\there \u20ac', '}~\x7f\x80']
+    bads = []
+    for smp in samples:
+        for f, oracle in ((ipa, printable), (tpa, sanitised)):
+            env = dict(uconsts)
+            env.update({a.arg: None for a in f.args.args})
+            nd = len(f.args.defaults)
+            for a_, d_ in zip(f.args.args[len(f.args.args) - nd:], f.args.defaults):
+                try:
+                    env[a_.arg] = _I16().value(d_, dict(bare_))
+                except _U16 as ex:
+                    raise AnalysisError('Utils.%s: default of %s is not computable: %s' % (f.name, a_.arg, ex))
+            env[f.args.args[1].arg] = smp
+            try:
+                fin = _I16(resolver=_ures, try_normal_path=True).run(f.body, env)
+            except _U16 as ex:
+                raise AnalysisError('Utils.%s cannot be interpreted: %s' % (f.name, ex))
+            rep.evals()
+            if len(fin) != 1 or fin[0].get('<forks>') or fin[0].get('<outcome>') != 'return':
+                raise AnalysisError('Utils.%s does not evaluate on a single path for %r' % (f.name, smp))
+            got = fin[0].get('<return>')
+            if not isinstance(got, (str, bool)):
+                raise AnalysisError('Utils.%s(%r): result not computable by the interpreter (%r)' % (f.name, smp, got))
+            if got != oracle(smp):
+                bads.append('Utils.%s(%r) is %r, documented: %r' % (f.name, smp, got, oracle(smp)))
+    rep.check(rule, 'is_print_ascii <=> all characters in 32..126; to_print_ascii replaces every other character by "?" (%d strings)' % len(samples), not bads, tpa,
+              'printable-ASCII helpers changed -- %s' % (bads[0] if bads else ''), stmt='printable ascii helpers')
